@@ -13,7 +13,7 @@ def sizes(tier):
     from sim import gen as GEN
     n_corner_all = len(GEN.cornerstone_list(tier))
     if tier == "quick":
-        return min(n_corner_all, 4000), 1400, 1500.0
+        return min(n_corner_all, 4000), 800, 1500.0
     return n_corner_all, 16000, 4 * 3600.0
 
 
